@@ -179,6 +179,7 @@ pub mod model_collections {
         pub fn into_mut(self) -> &'a mut V { &mut self.map.node_mut(self.idx).val }
         pub fn get(&self) -> &V { &self.map.node(self.idx).val }
         pub fn get_mut(&mut self) -> &mut V { &mut self.map.node_mut(self.idx).val }
+        pub fn insert(&mut self, v: V) -> V { std::mem::replace(&mut self.map.node_mut(self.idx).val, v) }
     }
     impl<'a, K: Eq + Hash, V, S: BuildHasher> VacantEntry<'a, K, V, S> {
         pub fn insert(self, v: V) -> &'a mut V {
